@@ -13,6 +13,7 @@ import numpy as np
 
 from oracle import pauli as O
 from symnp.sym import b_and, b_or, b_not, b_implies, b_iff
+from vf.semantics import measure_rows_obligations
 from vf.common import (Harness, cells, declare_clifford, assume_inv, fresh_clifford, pre_rows, post_rows, prove_inv,
                        declare_stabilizer, fresh_stabilizer, stab_rows)
 
@@ -150,28 +151,9 @@ class RunCircuit(Harness):
 # ------------------------------------------------------------------------------------------------------
 def measurement_obligations(S, spec, T2, outcome, xp, q, det, tag=""):
     """O4: textbook semantics of a Z measurement of qubit q on the pre-state `spec`, observed post-state T2."""
-    n = spec["n"]
     old_d, old_s = pre_rows(spec)
     new_d, new_s = post_rows(T2)
-    S.prove(tag + "outcome-is-bit", b_or(O.eq_bits(outcome, 0), O.eq_bits(outcome, 1)))
-    # (i) (-1)^outcome Z_q stabilizes the post-state
-    zq = O.Row.single(n, q, "Z", sign=outcome)
-    S.prove(tag + "measured-Z-with-outcome-sign-in-post-group", O.member_with_destabs(zq, new_s, new_d))
-    # (ii) the part of the old group commuting with Z_q survives with its signs
-    anti = [O.sp(g, O.Row.single(n, q, "Z")) for g in old_s]  # 1 iff generator anticommutes with Z_q
-    for i, g in enumerate(old_s):
-        S.prove(tag + f"commuting-generator-kept[{i}]", b_implies(O.eq_bits(anti[i], 0), O.member_with_destabs(g, new_s, new_d)))
-    for i in range(n):
-        for j in range(i + 1, n):
-            gij = O.mul(old_s[i], old_s[j])
-            S.prove(tag + f"commuting-product-kept[{i},{j}]",
-                    b_implies(b_and(O.eq_bits(anti[i], 1), O.eq_bits(anti[j], 1)), O.member_with_destabs(gij, new_s, new_d)))
-    # (iii) outcome rule
-    random_case = b_or(*[O.eq_bits(a, 1) for a in anti])
-    S.prove(tag + "third-return-nonzero-iff-random", b_iff(random_case, b_not(O.eq_bits(xp, 0))))
-    if det in (0, 1):
-        S.prove(tag + "forced-outcome-when-random", b_implies(random_case, O.eq_bits(outcome, det)))
-    return random_case
+    return measure_rows_obligations(S, spec["n"], old_s, new_d, new_s, q, outcome, det, xp=xp, tag=tag)
 
 
 class MeasureZ(Harness):
